@@ -69,6 +69,7 @@ Definition e4_resume_early (s : state) (t : tid) : option state :=
       end
   | None => None
   end.
+(* every action other than [AResume] ([ACancel], [AResumeCancelled], [AResumeReadFail] included) is the one of [step] *)
 Definition e4_step_early (s : state) (a : action) : option state :=
   match a with
   | AResume t => e4_resume_early s t
